@@ -86,7 +86,92 @@ let eval_zero_size w = function
             (M.chunksz w fuel64 { M.voff = z 0; M.vlen = len; M.vcap = len } (z_of_string n)))
   | _ -> None
 
+(* ---- X lines: the scale stream (harness/cmd/sliceutiltrace/scale.go).  The line names its input;
+   the outputs are digests / run-length encoded views. ---- *)
+let fnv64 s =
+  let h = ref 0xcbf29ce484222325L in
+  String.iter (fun c -> h := Int64.mul (Int64.logxor !h (Int64.of_int (Char.code c))) 0x100000001b3L) s;
+  Printf.sprintf "%Lx" !h
+let seq (xs : int list) =
+  let a = Array.of_list xs in
+  let n = Array.length a in
+  let ix = List.sort_uniq compare (List.filter (fun c -> c >= 0 && c < n) [0; 1; 2; n / 2 - 1; n / 2; n / 2 + 1; n - 3; n - 2; n - 1]) in
+  Printf.sprintf "%d:%s:%s" n (fnv64 (str_ints xs)) (str_ints (List.map (fun i -> a.(i)) ix))
+
+let x_outside = 1000000
+let num_after p s = int_of_string (String.sub s (String.length p) (String.length s - String.length p))
+let starts p s = String.length s >= String.length p && String.sub s 0 (String.length p) = p
+let x_vals vgen n =
+  if vgen = "i" then List.init n (fun j -> j)
+  else if starts "d" vgen && num_after "d" vgen > 0 then (let m = num_after "d" vgen in List.init n (fun j -> (7 * j + j / m) mod m))
+  else failwith ("bad vgen " ^ vgen)
+let x_keep pat n : int -> bool =
+  if pat = "all" then (fun _ -> true) else if pat = "none" then (fun _ -> false)
+  else if pat = "alt0" then (fun c -> c mod 2 = 0) else if pat = "alt1" then (fun c -> c mod 2 = 1)
+  else if pat = "ends" then (fun c -> c = 0 || c = n - 1) else if pat = "first" then (fun c -> c = 0)
+  else if pat = "last" then (fun c -> c = n - 1) else if pat = "notends" then (fun c -> c <> 0 && c <> n - 1)
+  else if starts "runs" pat then (let l = max (num_after "runs" pat) 1 in fun c -> (c / l) mod 2 = 0)
+  else if starts "lo" pat then (let h = num_after "lo" pat in fun c -> c < h)
+  else if starts "hi" pat then (let h = num_after "hi" pat in fun c -> c >= h)
+  else if starts "m" pat then Scanf.sscanf pat "m%dr%d" (fun m r -> let m = max m 1 in fun c -> c mod m < r)
+  else failwith ("bad keep pattern " ^ pat)
+let x_list_len lgen j =
+  let l = num_after (String.sub lgen 0 1) lgen in
+  match lgen.[0] with 'c' -> l | 'v' -> (5 * j + 3) mod (l + 1) | 'o' -> l + j mod 2 | _ -> failwith "bad list generator"
+let x_lists m lgen = List.init m (fun j -> List.init (x_list_len lgen j) (fun p -> (31 * j + p) mod 1000003))
+let x_base pre extra vals =
+  let n = List.length vals in
+  let a = Array.of_list vals in
+  List.init (pre + n + extra) (fun j -> if j >= pre && j < pre + n then a.(j - pre) else x_outside + j)
+
+(* consecutive views as runs  off:len:cap:cls*count *)
+let rle (vs : (string * int * int * string) list) =
+  if vs = [] then "." else begin
+    let follows (o1, l1, _, _) (o2, _, _, _) =
+      if o1 = o2 && (o1 = "-" || o1 = "ext") then true
+      else match int_of_string_opt o1, int_of_string_opt o2 with Some x, Some y -> y = x + l1 | _ -> false in
+    let buf = Buffer.create 64 in
+    let flush (o, l, c, k) cnt = if Buffer.length buf > 0 then Buffer.add_char buf ','; Buffer.add_string buf (Printf.sprintf "%s:%d:%d:%s*%d" o l c k cnt) in
+    let rec go first prev cnt = function
+      | [] -> flush first cnt
+      | ((_, l, c, k) as v) :: r ->
+        let (_, l0, c0, k0) = first in
+        if l = l0 && c = c0 && k = k0 && follows prev v then go first v (cnt + 1) r else (flush first cnt; go v v 1 r) in
+    (match vs with v :: r -> go v v 1 r | [] -> ());
+    Buffer.contents buf
+  end
+let view4 w r =
+  let len = int_of_z r.M.vlen and cap = int_of_z r.M.vcap in
+  ((if cap = 0 then "-" else string_of_int (int_of_z r.M.voff)), len, cap, b01 (M.can_overwrite w r))
+
+let eval_x = function
+  | ["X"; "S"; _; _; _; _; m; lgen; i] ->
+    Some (show_res seq (M.stripe (x_lists (int_of_string m) lgen) (z_of_string i)))
+  | ["X"; op; _; rep; pre; extra; n; vgen; arg] ->
+    let pre = int_of_string pre and extra = int_of_string extra and n = int_of_string n in
+    let vals = x_vals vgen n in
+    let base = x_base pre extra vals in
+    let v = { M.voff = z pre; M.vlen = z n; M.vcap = z (n + extra) } in
+    let zarg () = z_of_string arg in
+    Some (match op with
+     | "P" ->
+       show_res (fun (b', r) ->
+           let w' = M.window b' v in
+           let outside = List.filteri (fun j _ -> j < pre || j >= pre + n) b' in
+           show_view v r ^ " " ^ seq (M.window b' r) ^ " " ^ seq b' ^ " " ^ seq (List.sort compare w') ^ " " ^ seq outside)
+         (if rep = "f" then M.partition_fast (x_keep arg n) base v else M.partition (x_keep arg n) base v)
+     | "R" -> show_res seq (if rep = "f" then M.rotate_view_fast base v (zarg ()) else M.rotate base v (zarg ()))
+     | "C" -> show_res (fun rs -> rle (List.map (view4 v) rs) ^ " " ^ seq base) (M.chunks v (zarg ()))
+     | "B" -> show_res (fun rs -> rle (List.map (view4 v) rs) ^ " " ^ seq base) (M.batches v (zarg ()))
+     | "H" -> show_res (fun r -> show_view v r ^ " " ^ seq base) (M.head v (zarg ()))
+     | "T" -> show_res (fun r -> show_view v r ^ " " ^ seq base) (M.tail v (zarg ()))
+     | "A" -> show_res string_of_int (M.at_ (M.window base v) (zarg ()))
+     | "Q" -> show_res (function None -> "nil" | Some p -> let p = int_of_z p in Printf.sprintf "%d:%d" (pre + p) (List.nth vals p)) (M.ptr_at (M.window base v) (zarg ()))
+     | _ -> "?")
+  | _ -> None
+
 let eval inp =
+  match eval_x (words inp) with Some s -> s | None ->
   match eval_zero_size M.w64 (words inp) with Some s -> s | None ->
   match eval_extra (words inp) with Some s -> s | None ->
   match words inp with
@@ -219,10 +304,135 @@ let spec_zero_size inp out =
        Some (if known then r ^ " known=F13" else r))
   | _ -> None
 
+(* ---- the property on the X lines (scale stream): the same clauses, evaluated on digests of whole
+   sequences (a digest stands for the sequence it was computed from: FNV-1a 64 over its decimal
+   text, together with its length and nine of its elements) and on run-length encoded views, which
+   are expanded before they are checked. ---- *)
+let parse_rle s : pview list =
+  if s = "." then [] else
+  List.concat_map (fun run ->
+    match String.split_on_char '*' run with
+    | [v; cnt] ->
+      let v = parse_view v and cnt = (match int_of_string_opt cnt with Some c -> c | None -> bad "bad run count %s" cnt) in
+      if cnt < 1 || cnt > 4_000_000 then bad "bad run count %d" cnt;
+      List.init cnt (fun j -> { v with off = (match v.off with Some o when o >= 0 -> Some (o + j * v.len) | x -> x) })
+    | _ -> bad "bad run syntax %s" run) (String.split_on_char ',' s)
+
+let spec_x f out =
+  try
+    let must_not_panic () = if is_panic out || out = "hang" || out = "hang-skipped" then bad "%s on a documented argument" out in
+    (match f with
+     | ["X"; "S"; _; _; _; _; m; lgen; i] ->
+       let i = clamp_int i in
+       if i >= 0 then begin
+         let want = List.concat_map (fun l -> match List.nth_opt l i with Some x -> [x] | None -> []) (x_lists (int_of_string m) lgen) in
+         if out <> seq want then bad "Stripe: expected %s" (seq want)
+       end
+     | ["X"; k; _; _; pre; extra; n; vgen; arg] ->
+       let pre = int_of_string pre and extra = int_of_string extra and n = int_of_string n in
+       let vals = x_vals vgen n in
+       let a = Array.of_list vals in
+       let base = x_base pre extra vals in
+       let outside l = List.filteri (fun j _ -> j < pre || j >= pre + n) l in
+       let base_unchanged what d = if d <> seq base then bad "%s: input (or the array around it) modified" what in
+       (match k with
+        | "P" ->
+          must_not_panic ();
+          (match words out with
+           | [v; elems; _; sorted; outs] ->
+             let v = parse_view v in
+             let want = List.filter (x_keep arg n) vals in
+             if elems <> seq want then bad "Partition: result is %s, kept elements in order are %s" elems (seq want);
+             if v.len <> List.length want then bad "Partition: result length";
+             (match v.off with Some o when o <> pre -> bad "Partition: result is not a prefix of vs (starts at %d)" o | _ -> ());
+             if v.cls then bad "Partition: appending to the result overwrites an element of vs (capacity not clipped)";
+             check_clip "Partition" pre n extra ~allowed_self:(n = 0) v;
+             if sorted <> seq (List.sort compare vals) then bad "Partition: vs is not a permutation of its original contents";
+             if outs <> seq (outside base) then bad "Partition: an element outside the slice changed"
+           | _ -> bad "bad output syntax")
+        | "R" ->
+          let arg = clamp_int arg in
+          if arg < -n || arg > n then (if out <> "panic:doc-offset" then bad "Rotate: k out of range must panic(offset out of range)")
+          else begin
+            must_not_panic ();
+            let w' = Array.make n 0 in
+            for i = 0 to n - 1 do w'.(pmod (i + arg) n) <- a.(i) done;
+            let want = List.mapi (fun j x -> if j >= pre && j < pre + n then w'.(j - pre) else x) base in
+            if out <> seq want then bad "Rotate: the array afterwards is %s, expected %s (element i at index (i+k) mod n, nothing else changed)" out (seq want)
+          end
+        | "C" ->
+          let arg = clamp_int arg in
+          if arg < 0 then (if not (is_panic out) then bad "Chunks: n < 0 must panic")
+          else begin
+            must_not_panic ();
+            (match words out with
+             | [vs; base'] ->
+               let vs = parse_rle vs in
+               base_unchanged "Chunks" base';
+               check_cover pre n vs;
+               let m = List.length vs in
+               if m = 0 then bad "Chunks: no chunk";
+               List.iter (check_clip "Chunks" pre n extra ~allowed_self:(m = 1 && (arg = 0 || arg >= n))) vs;
+               if arg = 0 then (if m <> 1 then bad "Chunks: n = 0 must give a single chunk")
+               else List.iteri (fun j v ->
+                 if j < m - 1 && v.len <> arg then bad "Chunks: chunk %d has length %d" j v.len;
+                 if j = m - 1 && (v.len > arg || (v.len = 0 && n > 0)) then bad "Chunks: last chunk has length %d" v.len) vs
+             | _ -> bad "bad output syntax")
+          end
+        | "B" ->
+          let arg = clamp_int arg in
+          if arg < 0 then (if not (is_panic out) then bad "Batches: n < 0 must panic")
+          else begin
+            must_not_panic ();
+            (match words out with
+             | [vs; base'] ->
+               let vs = parse_rle vs in
+               base_unchanged "Batches" base';
+               if arg > 0 then check_cover pre n vs;
+               List.iter (check_clip "Batches" pre n extra ~allowed_self:false) vs;
+               if List.length vs <> min arg n then bad "Batches: %d batches, expected min(n, len) = %d" (List.length vs) (min arg n);
+               let lens = List.map (fun v -> v.len) vs in
+               if lens <> [] then begin
+                 let lo = List.fold_left min max_int lens and hi = List.fold_left max 0 lens in
+                 if hi - lo > 1 then bad "Batches: lengths differ by %d" (hi - lo)
+               end
+             | _ -> bad "bad output syntax")
+          end
+        | "H" | "T" ->
+          let arg = clamp_int arg in
+          if arg >= 0 then begin
+            must_not_panic ();
+            (match words out with
+             | [v; base'] ->
+               let v = parse_view v in
+               base_unchanged "Head/Tail" base';
+               let want = min arg n in
+               if v.len <> want then bad "Head/Tail: length %d, expected %d" v.len want;
+               let o = if k = "H" then pre else pre + n - want in
+               (match v.off with Some x when x <> o -> bad "Head/Tail: starts at %d, expected %d" x o | _ -> ())
+             | _ -> bad "bad output syntax")
+          end
+        | "A" ->
+          let arg = clamp_int arg in
+          if arg >= -n && arg < n then begin
+            must_not_panic ();
+            if out <> string_of_int a.(pmod arg n) then bad "At: expected %d" a.(pmod arg n)
+          end else if out <> "panic:doc-index" then bad "At: out of range must panic(index out of range)"
+        | "Q" ->
+          let arg = clamp_int arg in
+          if arg >= -n && arg < n then begin
+            let want = Printf.sprintf "%d:%d" (pre + pmod arg n) a.(pmod arg n) in
+            if out <> want then bad "PtrAt: expected the address of element %d (%s)" (pmod arg n) want
+          end else if out <> "nil" then bad "PtrAt: out of range must return nil"
+        | _ -> ())
+     | _ -> bad "bad X line");
+    None
+  with Bad s -> Some s
+
 let spec prop inp out =
   if prop = "C17x" then spec_extra inp out else
   if prop <> "C17" then None else
-  match words inp with "E" :: _ -> spec_zero_size inp out | _ ->
+  match words inp with "E" :: _ -> spec_zero_size inp out | "X" :: _ -> spec_x (words inp) out | _ ->
   try
     (match words inp with
      | ["S"; i; ls] ->
